@@ -179,7 +179,7 @@ func exhaustiveReservedWords(t *testing.T, st *stats.Collector) {
 	st.SetExtra("exhaustive_subspace", "every reserved word x every bare-name position x {UPPER, lower, mIxed} (plus alias and near-reserved controls)")
 }
 
-const ruleC16 = "two parts. (1) Exhaustive: every word of the reserved list (573) x every bare-name position (27 condition positions: either side of a comparator, each function's path and operand arguments, every BETWEEN / IN operand, head of a dotted path, left of [i], under NOT / AND / OR / parentheses, behind an operand that is missing from the item; 9 update positions: SET / REMOVE / ADD / DELETE target, SET right-hand side, if_not_exists path, head of a nested target, second action, second clause; nested path elements unless the open finding F-RESNESTED applies) x {UPPER, lower, mIxed} x four evaluated items (attributes present, absent, of another type, and an item that holds an attribute spelled exactly like the word) must be rejected by interpreter.Language; the same word behind a #alias and near-reserved neighbours (WORD1, WORD_x, xWORD) must not be rejected as reserved. (2) rapid state machine through both SDK clients against the restriction oracle of the reference model: placeholder configurations (supplied vs used #names / :values with names that are prefixes of one another, unused, undefined, malformed keys incl. a key of the other map's form; carried by Scan, Put, Delete, Update, Get / Scan / Query projections and Query, including the continuation page of a well-formed Query with the same expression texts), key-condition shapes (valid: hash equality alone or AND one sort-key condition of = < <= > >= BETWEEN begins_with, either operand order, parenthesised; invalid: missing hash equality, hash inequality, OR, NOT, non-key attribute, two sort conditions, <>, contains, size, IN), write requests that are neither / both put and delete, batch sizes 0-30 over 1-3 tables: reject -> validation-class error or documented panic and no state change; accept -> no validation error. Non-trivial = every enumerated placement, and generated requests rejected for exactly one reason or accepted while containing a near-miss; distinct = hash of the request."
+const ruleC16 = "two parts. (1) Exhaustive: every word of the reserved list (573) x every bare-name position (27 condition positions: either side of a comparator, each function's path and operand arguments, every BETWEEN / IN operand, head of a dotted path, left of [i], under NOT / AND / OR / parentheses, behind an operand that is missing from the item; 9 update positions: SET / REMOVE / ADD / DELETE target, SET right-hand side, if_not_exists path, head of a nested target, second action, second clause; nested path elements unless the open finding F-RESNESTED applies) x {UPPER, lower, mIxed} x four evaluated items (attributes present, absent, of another type, and an item that holds an attribute spelled exactly like the word) must be rejected by interpreter.Language; the same word behind a #alias and near-reserved neighbours (WORD1, WORD_x, xWORD) must not be rejected as reserved. (2) rapid state machine through both SDK clients against the restriction oracle of the reference model: a reserved word used behind an alias and as a bare name on one table in either order; placeholder configurations (supplied vs used #names / :values with names that are prefixes of one another, unused, undefined, malformed keys incl. a key of the other map's form; carried by Scan, Put, Delete, Update, Get / Scan / Query projections and Query, including the continuation page of a well-formed Query with the same expression texts), key-condition shapes (valid: hash equality alone or AND one sort-key condition of = < <= > >= BETWEEN begins_with, either operand order, parenthesised; invalid: missing hash equality, hash inequality, OR, NOT, non-key attribute, two sort conditions, <>, contains, size, IN), write requests that are neither / both put and delete, batch sizes 0-30 over 1-3 tables: reject -> validation-class error or documented panic and no state change; accept -> no validation error. Non-trivial = every enumerated placement, and generated requests rejected for exactly one reason or accepted while containing a near-miss; distinct = hash of the request."
 
 // TestC16 decides property C16.
 func TestC16(t *testing.T) {
@@ -265,7 +265,10 @@ func TestC16(t *testing.T) {
 						class = "unused-name"
 					}
 				case 1:
-					extra := rapid.SampledFrom(vals).Draw(rt, "extraValue")
+					// (also names that only exist across the seam of two expressions of one
+					// request: the end of one followed by the start of the next)
+					seam := []string{usedV[0] + "a", usedV[len(usedV)-1] + "SET", ":hkva", usedV[len(usedV)-1] + s.Hash, usedV[0] + "attribute_exists"}
+					extra := rapid.SampledFrom(append(append([]string{}, vals...), seam...)).Draw(rt, "extraValue")
 					if _, ok := op.Values[extra]; !ok {
 						op.Values[extra] = model.Str("zz")
 						class = "unused-value"
@@ -366,6 +369,24 @@ func TestC16(t *testing.T) {
 					op.Names = nil
 				}
 				record(op, class)
+			},
+			"reservedHistory": func(rt *rapid.T) {
+				// a reserved word used legally behind an alias and illegally as a bare name on
+				// one table, in either order: the verdict on one use never depends on the other
+				word := rapid.SampledFrom([]string{"status", "name", "count", "data", "size", "comment", "Timestamp", "USER"}).Draw(rt, "reservedWord")
+				key := g.key(rt)
+				aliased := model.Op{Kind: "Update", Table: s.Table, Key: key, Update: "SET #w = :v", Names: map[string]string{"#w": word}, Values: map[string]model.AV{":v": model.Str("x")}}
+				bare := model.Op{Kind: "Update", Table: s.Table, Key: key, Update: "SET " + word + " = :v", Values: map[string]model.AV{":v": model.Str("y")}}
+				if rapid.Bool().Draw(rt, "conditionInsteadOfUpdate") {
+					bare = model.Op{Kind: "Delete", Table: s.Table, Key: key, Cond: word + " = :v", Values: map[string]model.AV{":v": model.Str("y")}}
+				}
+				if rapid.Bool().Draw(rt, "bareFirst") {
+					record(bare, "reserved-bare-then-aliased")
+					record(aliased, "reserved-bare-then-aliased")
+				} else {
+					record(aliased, "reserved-aliased-then-bare")
+					record(bare, "reserved-aliased-then-bare")
+				}
 			},
 			"keyCondition": func(rt *rapid.T) {
 				hv := c16KeyValue(w.m, s.Table, s.Hash)
